@@ -68,8 +68,17 @@ fn parts(id: &'static str, tier: Tier, seed: u64) -> Vec<Part> {
             Part { rule: props_e3::STRESS_SHARED_RULE.to_string(), run: Box::new(|ctx, acc| props_e3::run_stress_shared(ctx, acc, false, true)) },
         ],
         "C12" | "C20" => vec![seq_part(id, tier, seed), e2_part(id, tier)],
-        "C06" => vec![seq_part(id, tier, seed), e2_part(id, tier), e3_part(id)],
-        "C03" | "C09" => vec![e2_part(id, tier)],
+        "C06" => vec![
+            seq_part(id, tier, seed),
+            e2_part(id, tier),
+            e3_part(id),
+            Part { rule: props_e2::C06_XDEV_RULE.to_string(), run: Box::new(|ctx, acc| props_e2::run_c06_xdev(ctx, acc)) },
+        ],
+        "C09" => vec![e2_part(id, tier)],
+        "C03" => vec![
+            e2_part(id, tier),
+            Part { rule: props_e2::C03_BULK_RULE.to_string(), run: Box::new(|ctx, acc| props_e2::run_c03_bulk(ctx, acc)) },
+        ],
         "C08" => vec![
             e2_part(id, tier),
             Part { rule: props_misc::C08_PLANT_RULE.to_string(), run: Box::new(|ctx, acc| props_misc::run_c08_planted(ctx, acc)) },
@@ -170,6 +179,7 @@ fn replay_case(id: &'static str, engine: &str, case: serde_json::Value) -> R<Cas
         "C08P" => props_misc::replay_c08_planted(case),
         "C18X" => props_misc::replay_c18x(case),
         "C19I" => props_misc::replay_c19i(case),
+        "XDEV" => props_e2::replay_xdev(case),
         "C17" => props_misc::replay_c17(case),
         "C19" => props_misc::replay_c19(case),
         "C10" => props_misc::replay_c10(case),
